@@ -51,6 +51,12 @@ func (e *RequestTimeoutError) Error() string {
 	return fmt.Sprintf("request timeout exceeded: %v", e.error.Error())
 }
 
+// Unwrap returns the context error which caused the timeout.
+// This is for Go1.13 error unwrapping.
+func (e *RequestTimeoutError) Unwrap() error {
+	return e.error
+}
+
 type errorInterface interface {
 	Error() string
 	Unwrap() error
